@@ -717,6 +717,46 @@ fn env_mutant() -> Mutant {
 pub fn run(cfg: &Cfg) -> Report { run_mut(cfg, env_mutant()) }
 pub fn run_rates(cfg: &Cfg) -> Report { run_rates_with(cfg, env_mutant()) }
 
+/// Genomes whose length is not exactly representable as an `f32` (2^24 + 1 genes and neighbours): `WithOneOverLength`
+/// still mutates them - same length, each gene flipped iff its draw lies below the model's rate for that length
+/// (`mut oolrate n`, the per-gene rule replayed on a clone of the generator).  One lean pass per length.
+fn inexact_length_genomes(rep: &mut Report, driver: &str, seed: u64) {
+    use ec_linear::mutator::with_one_over_length::WithOneOverLength;
+    let mut d = crate::driver::Driver::spawn(driver);
+    for (k, n) in [(1usize << 24) + 1, (1 << 24) + 3, 1 << 24].into_iter().enumerate() {
+        let req = format!("mut oolrate {n}");
+        let reply = d.ask(&req);
+        let rate = f32::from_bits(reply.trim_end_matches(" native-mismatch").parse().unwrap_or(0));
+        let base = SplitMix::derive(seed ^ 0x1EAC7, k as u64);
+        rep.case(&format!("{req}#inexact"), true);
+        rep.hit("WithOneOverLength on a genome of 2^24 .. 2^24 + 3 genes (oracle only)");
+        for bits_flavour in [false, true] {
+            let mut rng = base.clone();
+            let res = catch_unwind(AssertUnwindSafe(|| -> Result<Vec<bool>, String> {
+                if bits_flavour { WithOneOverLength.mutate(Bitstring { bits: vec![false; n] }, &mut rng).map(|b| b.bits).map_err(|e| e.to_string()) }
+                else { WithOneOverLength.mutate(vec![false; n], &mut rng).map_err(|e| e.to_string()) }
+            }));
+            let what = match res {
+                Err(_) => Some("panicked".to_string()),
+                Ok(Err(e)) => Some(format!("refused the genome: {e}")),
+                Ok(Ok(child)) => {
+                    let mut shadow = base.clone();
+                    let mut diff = None;
+                    if child.len() != n { Some(format!("returned {} genes", child.len())) } else {
+                        for (i, c) in child.iter().enumerate() { let x: f32 = shadow.random(); if (x < rate) != *c { diff = Some(i); break; } }
+                        let same = shadow.next_u64() == rng.next_u64();
+                        match diff { Some(i) => Some(format!("gene {i} is {} although its draw says otherwise for rate 1/{n}", if child[i] { "flipped" } else { "not flipped" })), None => if same { None } else { Some("the generator is left in another state than one draw per gene leaves it".to_string()) } }
+                    }
+                }
+            };
+            if let Some(w) = what {
+                rep.violate(json!({"case": format!("WithOneOverLength on a {} of {n} genes", if bits_flavour { "Bitstring" } else { "Vec<bool>" }), "real": w,
+                    "what": "a genome keeps its length and every gene is flipped with the length-scaled rate, also when the length is not exactly representable as an f32"}));
+            }
+        }
+    }
+}
+
 pub fn run_mut(cfg: &Cfg, mutant: Mutant) -> Report {
     let seed = cfg.seed;
     let n: u64 = if cfg.thorough { 1_500_000 } else { 40_000 };
@@ -724,6 +764,7 @@ pub fn run_mut(cfg: &Cfg, mutant: Mutant) -> Report {
         if i % 2 == 0 { case_flip(d, r, seed, i, mutant) } else { case_umad(d, r, seed, i, mutant, false) }
     });
     rep.notes.push(format!("{n} seeded mutations (half bit-flip, half UMAD)"));
+    if mutant == Mutant::None { crate::watch::guarded("mut: WithOneOverLength on genomes of 2^24 .. 2^24 + 3 genes", || inexact_length_genomes(&mut rep, &cfg.driver, seed)); }
     if mutant != Mutant::None { rep.notes.push(format!("SELFTEST: mutant {mutant:?}")); }
     rep
 }
@@ -752,7 +793,8 @@ pub fn run_rates_with(cfg: &Cfg, mutant: Mutant) -> Report {
             case_closep(d, r, nn.min(usize::MAX - 1), mutant)
         }
     });
-    frequency_oracles(&mut rep, seed, cfg.thorough, mutant);
+    crate::watch::guarded("rates: frequency oracles", || frequency_oracles(&mut rep, seed, cfg.thorough, mutant));
+    if mutant == Mutant::None { crate::watch::guarded("rates: WithOneOverLength on genomes of 2^24 .. 2^24 + 3 genes", || inexact_length_genomes(&mut rep, &cfg.driver, seed)); }
     rep.notes.push(format!("{n} seeded tape-level cases; with_uniform_close_probability for n = 1..={n_close} and 64 large n bit for bit; exhaustive WithRate decision-boundary scope ({n_bound} cases: rate pool x boundary word x flavour); frequency oracles on {} samples each", if cfg.thorough { 4_000_000 } else { 200_000 }));
     if mutant != Mutant::None { rep.notes.push(format!("SELFTEST: mutant {mutant:?}")); }
     rep
